@@ -914,6 +914,19 @@ def parsed_cases(base_seed, tier):
     ]
     for j, (pk, items) in enumerate(shared):
         rec(('shared', j), [{'op': 'PARSE', 'items': items, 'packages': pk}])
+    # packages and classes that build or move nodes themselves: index entries with page formats, beamer frames,
+    # long tables with several head rows, verbatim
+    rec(('pkg', 'index'), [{'op': 'PARSE', 'packages': ['makeidx'], 'preamble': '\\makeindex', 'items': [
+        'Alpha\\index{alpha|textbf} beta\\index{beta|textbf} gamma\\index{gamma|textit} delta\\index{delta}.', '\n\n',
+        'More\\index{alpha|textbf} text\\index{beta!sub|textbf}.', '\n\n', '\\printindex']}])
+    rec(('pkg', 'beamer'), [{'op': 'PARSE', 'cls': 'beamer', 'items': [
+        '\\begin{frame}\\frametitle{Titled by command} Body one. \\begin{itemize}\\item a \\item b\\end{itemize}\\end{frame}',
+        '\\begin{frame}{Titled by argument} Body two.\\end{frame}', '\\begin{frame} Untitled \\textbf{three}.\\end{frame}']}])
+    rec(('pkg', 'longtable'), [{'op': 'PARSE', 'packages': ['longtable'], 'items': [
+        '\\begin{longtable}{ll}\\caption{Cap}\\\\ Name & Value \\\\ (unit) & (unit) \\\\ \\endfirsthead Name & Value \\\\ \\endhead'
+        ' a & b \\\\ c & d\\footnote{fn} \\\\ \\end{longtable}', '\n\n', 'After.', '\n\n']}])
+    rec(('pkg', 'verb'), [{'op': 'PARSE', 'items': ['Verb \\verb|ab c| and \\verb*+x y+ and \\verb|z|.', '\n\n',
+                                                    '\\begin{verbatim}\nline one\n\\end{verbatim}', '\n\n', 'End.', '\n\n']}])
     # (NOT generated: the same documents as ONE paragraph directly in the body. Nothing normalises such a document, and the
     #  shared body tokens of a macro used twice are then listed by two containers - the parser appends nodes that are not
     #  detached, which is outside the premise of the statement; observed on the unchanged tree, recorded in DESIGN 10.3)
@@ -959,7 +972,9 @@ def check_parsed(doc):
         if attrs:
             for k, v in attrs.items():
                 if hasattr(v, 'nodeType') and v.nodeType == Node.DOCUMENT_FRAGMENT_NODE:
-                    if v.parentNode is not node:
+                    # (a fragment that library code builds and stores itself - the title of \printindex - has no parent at
+                    #  all; what must not happen is a parent link that names ANOTHER node)
+                    if v.parentNode is not node and v.parentNode is not None:
                         raise Violation('C06|parsed|attribute-fragment-parent', {'holder': node.nodeName, 'attribute': k,
                                                                                  'parent': getattr(v.parentNode, 'nodeName', None)})
                     for c in v.childNodes:
@@ -994,8 +1009,8 @@ def execute_parsed(record, res):
                 tex = TeX(file=path)
             else:
                 tex = TeX()
-                tex.input('\\documentclass{article}%s\\begin{document}%s%s\\end{document}'
-                          % (''.join('\\usepackage{%s}' % q for q in op.get('packages', [])),
+                tex.input('\\documentclass{%s}%s%s\\begin{document}%s%s\\end{document}'
+                          % (op.get('cls', 'article'), ''.join('\\usepackage{%s}' % q for q in op.get('packages', [])), op.get('preamble', ''),
                              'Bare\\label{fzl1}\\label{sec1} ' if op.get('bare') else '\\section{S}\\label{fzl1}\\label{sec1}\n', ' '.join(op['items'])))
             doc = tex.parse()
         except BaseException as e:
